@@ -33,6 +33,7 @@ type c19Case struct {
 	Handler   bool
 	Path      bool
 	BeforeErr string // "" | name of the operation whose before-request call fails
+	URLQuery  bool   // the configured server URL carries a query string (e.g. an API key)
 	FirstInit int    // 0 = the handshake succeeds at once; else the HTTP status with which the server refuses the first initialize (no session id issued), after which the client initializes again
 }
 
@@ -42,6 +43,11 @@ func c19Cases(tier string) []c19Case {
 		for mask := 0; mask < 16; mask++ {
 			c := c19Case{Client: cl, Static: mask&1 != 0, Before: mask&2 != 0, Handler: mask&4 != 0, Path: mask&8 != 0}
 			out = append(out, c)
+			if mask == 0 || mask == 8 || mask == 15 {
+				c4 := c
+				c4.URLQuery = true
+				out = append(out, c4)
+			}
 			if cl != "ls" && (mask == 0 || mask == 15) {
 				for _, st := range []int{503, 400} {
 					c3 := c
@@ -63,7 +69,7 @@ func c19Cases(tier string) []c19Case {
 
 func c19Eval(tier string, i int) CaseResult {
 	cs := c19Cases(tier)[i]
-	cr := CaseResult{Desc: fmt.Sprintf("client=%s static=%v before=%v handler=%v path=%v beforeErr=%q firstInit=%d", cs.Client, cs.Static, cs.Before, cs.Handler, cs.Path, cs.BeforeErr, cs.FirstInit), Nontrivial: true}
+	cr := CaseResult{Desc: fmt.Sprintf("client=%s static=%v before=%v handler=%v path=%v beforeErr=%q firstInit=%d urlQuery=%v", cs.Client, cs.Static, cs.Before, cs.Handler, cs.Path, cs.BeforeErr, cs.FirstInit, cs.URLQuery), Nontrivial: true}
 	var viol []explore.Violation
 	obs := &hx.Log{}
 	k := func(s string) string { return fmt.Sprintf("%s:%s", s, cs.Client) }
@@ -74,6 +80,9 @@ func c19Eval(tier string, i int) CaseResult {
 			if cs.Client == "ls" {
 				w.Raw("event: endpoint\ndata: /message?sessionId=s1\n\n")
 			}
+		}
+		if cs.URLQuery {
+			ss.urlSuffix = "?api_key=k1&x=a%20b"
 		}
 		if cs.FirstInit != 0 {
 			refused := false
@@ -246,6 +255,9 @@ func c19Eval(tier string, i int) CaseResult {
 			isEndpointPost := cs.Client == "ls" && x.Method == "POST" // goes to the endpoint the server announced
 			if !isEndpointPost && x.Path != wantPath {
 				viol = append(viol, V(k("path:"+kind), "%s went to %q, configured path %q", where, x.Path, wantPath))
+			}
+			if cs.URLQuery && !isEndpointPost && x.Query != "api_key=k1&x=a%20b" {
+				viol = append(viol, V(k("url-query:"+kind), "%s was sent with the query %q, the configured URL carries %q", where, x.Query, "api_key=k1&x=a%20b"))
 			}
 			if isEndpointPost && x.Path != "/message" {
 				viol = append(viol, V(k("path:"+kind), "%s went to %q, the announced endpoint is /message", where, x.Path))
